@@ -141,7 +141,8 @@ def eval_attr(v, m, point1):
 def residual(m, point, which="dae"):
     """Evaluate the residual function at {symbol name: list of values in column-major order}."""
     import casadi as ca
-    f = m.dae_residual_function if which == "dae" else m.delay_arguments_function
+    f = {"dae": lambda: m.dae_residual_function, "initial": lambda: m.initial_residual_function,
+         "delay": lambda: m.delay_arguments_function}[which]()
     args = [ca.DM(point["time"])]
     for g in ["states", "der_states", "alg_states", "inputs", "constants", "parameters"]:
         vals = []
@@ -149,7 +150,7 @@ def residual(m, point, which="dae"):
             vals += list(point[v.symbol.name()])
         args.append(ca.DM(vals) if vals else ca.DM.zeros(0, 1))
     out = f(*args)
-    if which == "dae":
+    if which in ("dae", "initial"):
         if f.n_out() == 0:
             return []
         return [float(x) for x in ca.DM(out).full().flatten(order="F")]
@@ -210,7 +211,7 @@ def check_case(ctx, case, drv):
     tab = var_table(case)
     if r1[0] == "exc":
         ctx.count("expanded-raises:" + r1[1])
-        ctx.violation("expand_vectors raised %s on a model that compiles without the option" % r1[1], case,
+        ctx.violation("expand_vectors raised %s (%s) on a model that compiles without the option" % (r1[1], r1[2][:60]), case,
                       expected="expanded model", observed="%s: %s" % (r1[1], r1[2]), kind="program")
         model_attr_check(ctx, case, drv, None, raised=r1[1])
         return "raised"
@@ -345,6 +346,14 @@ def check_case(ctx, case, drv):
                               kind="program")
                 bad = True
                 break
+            if case.get("ieqs"):
+                i0, i1 = residual(m0, p0, "initial"), residual(m1, p1, "initial")
+                if len(i0) != len(i1) or any(not same_number(x, y) for x, y in zip(i0, i1)):
+                    ctx.violation("expanded initial residual differs from the unexpanded one under the renaming", case,
+                                  expected={"point": p0, "residual": i0}, observed={"point": p1, "residual": i1},
+                                  kind="program")
+                    bad = True
+                    break
             if m0.delay_states:
                 d0 = residual(m0, p0, "delay")
                 d1 = residual(m1, p1, "delay")
@@ -426,23 +435,16 @@ def model_attr_check(ctx, case, drv, impl_attr, raised=None):
             aj = attr_json(spec)
             if aj["kind"] in ("scalar", "mx"):
                 continue
-            ans = drv.ask({"op": "expand.attr", "dims": dims, "attr": aj, "mode": "strict"})
+            ans = drv.ask({"op": "expand.attr", "dims": dims, "attr": aj, "mode": "current"})
             if not ans.get("ok"):
                 raise HarnessError("drv_c18 rejected expand.attr: %s" % ans)
             where = dict(case, variable=d["name"], attribute=a)
             if ans.get("error"):
                 if raised is None:
-                    # the code as modelled raises here; a tree with proposed_fixes/C18-1.diff selects by trailing indices
-                    ans = drv.ask({"op": "expand.attr", "dims": dims, "attr": aj, "mode": "trailing"})
-                    if ans.get("error") or spec.get("skip", 0) == 0 or aj["kind"] != "list":
-                        ctx.disagreement("expand.attr", where, ans, "impl selected elements")
-                        continue
-                    ctx.count("inner-attribute-selected-by-trailing-indices")
-                else:
-                    ctx.count("model-and-impl-raise")
-                    if ans["error"] != raised:
-                        ctx.count("model-and-impl-raise-different-class:%s/%s" % (ans["error"], raised))
-                    return      # the implementation stops at the first exception, nothing else to compare
+                    ctx.disagreement("expand.attr", where, ans, "impl selected elements")
+                    continue
+                ctx.count("model-and-impl-raise")
+                return      # the implementation stops at the first exception, nothing else to compare
             if raised is not None:
                 continue
             got = impl_attr.get((d["name"], a))
@@ -471,30 +473,44 @@ def model_outputs_check(ctx, case, drv, m0, m1, block):
 
 
 def model_residual_check(ctx, case, drv, m0, res, block):
+    """Core-fragment equations: the model's value of each residual, unexpanded and expanded, against the slices of
+    the real residual vectors (equation k of the unexpanded model has `numel` entries)."""
     asts = [e["ast"] for e in case["eqs"]]
-    if any(a is None for a in asts) or not asts:
+    if len(asts) != len(m0.equations):
+        ctx.count("residual-model-skipped-equation-count")
+        return
+    sizes = [int(e.numel()) for e in m0.equations]
+    offs = [sum(sizes[:k]) for k in range(len(sizes))]
+    core = [k for k, a in enumerate(asts) if a is not None]
+    if not core:
         ctx.count("residual-model-skipped-noncore")
         return
     decls = []
     for g in GROUPS:
         for v in getattr(m0, g):
             ms = v.symbol._modelica_shape
+            if v.symbol.name() in m0.delay_states:
+                continue
             decls.append({"name": v.symbol.name(), "levels": [None if lv == (None,) else list(lv) for lv in ms]})
     for p0, p1, r0v, r1v in res:
-        ans = drv.ask({"op": "expand.residual", "decls": decls, "eqs": asts,
+        ans = drv.ask({"op": "expand.residual", "decls": decls, "eqs": [asts[k] for k in core],
                        "point": {k: [int(x) for x in v] for k, v in p0.items() if k != "time"}})
         if not ans.get("ok"):
             raise HarnessError("drv_c18 rejected expand.residual: %s" % ans)
         if ans.get("error"):
             ctx.disagreement("expand.residual", case, ans["error"], "impl evaluates")
             return
-        if [Fraction(x) for x in ans["unexpanded"]] != [Fraction(x) for x in r0v]:
-            ctx.disagreement("expand.residual.unexpanded", dict(case, point=p0), ans["unexpanded"], r0v)
-            return
-        if [Fraction(x) for x in ans["expanded"]] != [Fraction(x) for x in r1v]:
-            ctx.disagreement("expand.residual.expanded", dict(case, point=p0), ans["expanded"], r1v)
-            return
+        for n, k in enumerate(core):
+            sl0 = r0v[offs[k]:offs[k] + sizes[k]]
+            sl1 = r1v[offs[k]:offs[k] + sizes[k]]
+            if [Fraction(x) for x in ans["unexpanded"][n]] != [Fraction(x) for x in sl0]:
+                ctx.disagreement("expand.residual.unexpanded", dict(case, point=p0, equation=k), ans["unexpanded"][n], sl0)
+                return
+            if [Fraction(x) for x in ans["expanded"][n]] != [Fraction(x) for x in sl1]:
+                ctx.disagreement("expand.residual.expanded", dict(case, point=p0, equation=k), ans["expanded"][n], sl1)
+                return
     ctx.count("residual-model-compared")
+    ctx.count("residual-model-equations", len(core))
 
 
 # ---- run ---------------------------------------------------------------------------------------------------------------
@@ -512,13 +528,15 @@ def run(ctx):
         ctx.case(c, nontrivial=True, key=c["text"])
         check_case(ctx, c, drv)
     quick = ctx.tier == "quick"
-    n_main, n_inner = (170, 25) if quick else (2600, 300)
+    n = 120 if quick else 2900
     unsupported = 0
-    for i in range(n_main + n_inner):
+    for i in range(n):
         if ctx.time_left() < 0:
             ctx.notes.append("stopped by the time budget after %d programs" % i)
             break
-        stream = "main" if i < n_main else "inner"
+        # "inner": additionally an attribute given inside the class of an array of components (finding C18-F1,
+        # fixed in 5f5e413): part of the normal stream
+        stream = "inner" if ctx.rng.random() < 0.12 else "main"
         case = G.gen_program(ctx.rng, stream)
         case["expand_mx"] = ctx.rng.random() < 0.2
         ctx.case(case, nontrivial=nontrivial(case), key=case["text"] + str(case["expand_mx"]))
